@@ -37,6 +37,7 @@ type mixGen struct {
 	ethCtr       int64
 	ethContracts []*types.Address
 	poorFunded   bool
+	forceReq     bool // the next block starts with a valid request on a usable pair
 	poorNonce    uint64
 }
 
@@ -209,6 +210,23 @@ func (g *mixGen) genBlock(h uint64) []pb.Transaction {
 	} else if r.Intn(3) == 0 {
 		for k := 1 + r.Intn(3); k > 0; k-- {
 			txs = append(txs, g.ethTx())
+		}
+	}
+	if g.forceReq {
+		// the caller wants this block to carry at least one request the chain will accept
+		g.forceReq = false
+		for _, p := range g.pairs {
+			if !p.usable || g.blocked[p.from+"|"+p.to] {
+				continue
+			}
+			var req uint64
+			if pp := g.ix.Pairs[p.from+"|"+p.to]; pp != nil {
+				req = pp.Req
+			}
+			g.ix.Submit(model.IxIBTP{From: p.from, To: p.to, Index: req + 1, Kind: model.KReq, Timeout: 0, DstUsable: p.usable, ProofOK: true})
+			txs = append(txs, g.ibtp(model.KReq, p.from, p.to, req+1, 0, nil))
+			g.note("ibtp-request")
+			break
 		}
 	}
 	for i := 0; i < n; i++ {
